@@ -149,3 +149,36 @@ Definition check_state (ldims : list (nat * nat)) (ts : list (tensor G)) (outs :
        let r := rdm dims psi w in
        forallb (glist_eqb r) (snd (fst it))
        && forallb (fun p => let v := expect dims psi w (fst p) in forallb (geqb v) (snd p)) (snd it)) items.
+
+(* ---- states that hold part of their scale in `exponent` ------------------------
+   The implementation's state is 10^e x (its tensors), e >= 0 an integer here so
+   that everything is exact.  The unnormalised quantities of the state are
+   (10^e)^2 x the model's values on the tensors (theorems C13_scaled_state_rdm and _expectation): the exponent
+   must be counted exactly twice, by every route that returns an unnormalised value. *)
+Definition sq10 (e : Z) : Z := (10 ^ e * 10 ^ e)%Z.
+
+Definition check_where_scaled (e : Z) (ldims : list (nat * nat)) (ts : list (tensor G)) (outs : list nat)
+    (where_ : list nat) (rdms : list (list G)) (norms : list G)
+    (exps : list (list G * list G)) : bool :=
+  let st := state_of ldims ts outs in
+  let dims := fst st in let psi := snd st in
+  let c := sq10 e in
+  let r := map (gscale c) (rdm dims psi where_) in
+  let n2 := gscale c (gnorm2 psi) in
+  forallb (glist_eqb r) rdms
+  && forallb (geqb n2) norms
+  && forallb (fun p => let v := gscale c (expect dims psi where_ (fst p)) in forallb (geqb v) (snd p)) exps.
+
+Definition check_state_scaled (e : Z) (ldims : list (nat * nat)) (ts : list (tensor G)) (outs : list nat)
+    (norms : list G)
+    (items : list (list nat * list (list G) * list (list G * list G))) : bool :=
+  let st := state_of ldims ts outs in
+  let dims := fst st in let psi := snd st in
+  let c := sq10 e in
+  let n2 := gscale c (gnorm2 psi) in
+  forallb (geqb n2) norms
+  && forallb (fun it =>
+       let w := fst (fst it) in
+       let r := map (gscale c) (rdm dims psi w) in
+       forallb (glist_eqb r) (snd (fst it))
+       && forallb (fun p => let v := gscale c (expect dims psi w (fst p)) in forallb (geqb v) (snd p)) (snd it)) items.
